@@ -1043,3 +1043,11 @@ def lookup_case(ps, is_table):
         # try-form: the path that never entered the handler is the hit
         return "try-body"
     return None
+
+
+def sole_result(fn, **kw):
+    """the one abstract value a (small) function returns on all its returning
+    paths, or None if there are several / none"""
+    from .summary import summarize
+    vals = {ps.retval for ps in summarize(fn, **kw) if ps.term == "return"}
+    return vals.pop() if len(vals) == 1 else None
